@@ -49,6 +49,8 @@ CORPORA = {
                 quick=dict(count=1500), thorough=dict(count=60000), profiles=DEV_REL, place="both"),
     "hmut": dict(kind="mutate", header=True, base=["hfields", "hgetters", "hdst", "hwalk"],
                  quick=dict(count=1500), thorough=dict(count=40000), profiles=DEV_REL, place="both"),
+    "bgen": dict(kind="mutate", gen="builder_cases", base=["builder"], quick=dict(count=600), thorough=dict(count=15000), profiles=DEV_REL, place="end"),
+    "hbgen": dict(kind="mutate", gen="hbuilder_cases", base=["hbuilder"], quick=dict(count=1500), thorough=dict(count=20000), profiles=DEV_REL, place="end"),
     "load": dict(model="MC_Load", quick=dict(MaxT=72), thorough=dict(MaxT=160), profiles=DEV_REL, place="both"),
     "walk": dict(model="MC_Walk", quick=dict(MaxT=32), thorough=dict(MaxT=40), profiles=DEV_REL, place="both"),
 }
@@ -77,12 +79,14 @@ CHECKS = {
     "C17": dict(thorough_extra=["mut"], corpora=["str", "ctor", "dst"],
                 rule="parse: all strings of length <= MaxStr over a 10-byte alphabet (NUL, ASCII, pieces of 2/3/4-byte sequences, invalid bytes) "
                      "x every cut of the declared size x 3 string kinds; build: texts of length 0..MaxContent with and without trailing NUL"),
-    "C06": dict(corpora=["builder"],
-                rule="all call sequences up to MaxSeq over 7 representative slots x 2 contents; every one of the 22 slots alone and in all ordered pairs"),
+    "C06": dict(corpora=["builder", "bgen"],
+                rule="all call sequences up to MaxSeq over 7 representative slots x 2 contents; every one of the 22 slots alone and in all ordered pairs; "
+                     "seeded random subsets / orders / repeated calls of all 22 slots, the full set and every all-but-one subset (native generator "
+                     "recombining the specification's argument records; NOT all 2^22 subsets)"),
     "C07": dict(corpora=["ctor", "builder", "hbuilder"],
                 rule="every public constructor of both crates x 2 byte-marked argument sets; variable-length kinds with content lengths 0..MaxContent; "
                      "constructors reached through the builders' setters as well"),
-    "C12": dict(corpora=["hbuilder"],
+    "C12": dict(corpora=["hbuilder", "hbgen"],
                 rule="all 2^10 subsets of the header builder's slots x both architectures; all call sequences of length 2..MaxSeq over 3 slots x 2 contents"),
     "C16": dict(corpora=["boxed", "ctor"],
                 rule="new_boxed on all partitions of content of total length 0..MaxTotal into <= 3 slices x 3 header kinds (each also cloned); "
